@@ -154,7 +154,7 @@ def build_from_code(spec, source_chart, source_build, by_name=False):
 
 class C17(Prop):
   id = "C17"
-  quick_examples = 250
+  quick_examples = 500
   thorough_examples = 3000
   rule = ("One Hypothesis-generated chart (forest of 1-8 states, initial transitions, reactions "
           "handle / transition / decline / counter-guard, states with and without entry, exit and "
@@ -283,7 +283,7 @@ class C17(Prop):
     guarded("template (second chart of the same recipe)", lambda: self.transcript_direct(case, t2, b2))
 
     def from_code(src_chart, src_build, label):
-      bc = build_from_code(spec, src_chart, src_build, by_name=(label == "factory" and bool(case.get("by_name"))))
+      bc = build_from_code(spec, src_chart, src_build, by_name=bool(case.get("by_name")))
       # the functions made from the to_code text are nobody's generated handlers: count their calls
       # so that a hierarchy that goes round in circles is cut short instead of hanging the check
       import sys
